@@ -248,11 +248,11 @@ def normSlot : Slot → Slot
   | s => s
 
 /-- object_class.go:415-437: "preserve attributes of the original property", literally -/
-def mergeMode (mode1 mode0 : Nat) (descIsData : Bool) : Nat :=
+def mergeMode (mode1 mode0 : Nat) (staysData : Bool) : Nat :=
   if mode1 &&& 0o222 != 0 then
     let mode1 :=
       if mode1 &&& 0o200 != 0 then
-        if descIsData then (mode1 &&& (0o777 ^^^ 0o200)) ||| (mode0 &&& 0o100) else mode1
+        if staysData then (mode1 &&& (0o777 ^^^ 0o200)) ||| (mode0 &&& 0o100) else mode1
       else mode1
     let mode1 := if mode1 &&& 0o20 != 0 then mode1 ||| (mode0 &&& 0o10) else mode1
     let mode1 := if mode1 &&& 0o2 != 0 then mode1 ||| (mode0 &&& 0o1) else mode1
@@ -265,7 +265,12 @@ def defineSwitch (prop d : MProp) (configurable : Bool) : Option PV :=
   let getSet : Slot × Slot := match prop.value with | .gs g s => (g, s) | _ => (.nil, .nil)
   if d.isGenericDescriptor then some d.value
   else if isData != d.isDataDescriptor then
-    if !configurable then none else some d.value
+    if !configurable then none
+    else
+      -- accessor ⇒ data without a value: `descriptor.value = Value{}` (8.12.9 step 9.c)
+      match isData, d.value with
+      | false, .nil => some (.val 0)
+      | _, _ => some d.value
   else if isData && d.isDataDescriptor then
     if !configurable then
       if !prop.writable && d.writable then none
@@ -310,8 +315,9 @@ def defineOwn (o : MObj) (n : Name) (d : MProp) : Option MObj :=
           | .nil => prop.value
           | .gs g s => .gs (normSlot g) (normSlot s)
           | v => v
-        let d' : MProp := ⟨dvalue, d.mode⟩
-        let mode1 := Mode.ofNat (mergeMode d.mode.toNat prop.mode.toNat d'.isDataDescriptor)
+        -- `_, staysData := value1.(Value)`: writable is carried over whenever the property stays a data property
+        let staysData := match value1 with | .val _ => true | _ => false
+        let mode1 := Mode.ofNat (mergeMode d.mode.toNat prop.mode.toNat staysData)
         some { o with props := aupsert n ⟨value1, mode1⟩ o.props }
 
 /-! ### prototype chain walks (fuel = heap size + 1; prototypes always point to older objects) -/
@@ -394,8 +400,8 @@ def delete (h : MHeap) (a : Addr) (n : Name) (throw : Bool) : StepRes :=
       if prop.configurable then (h.set a { o with props := aerase n o.props }, .bool true, [])
       else (h, if throw then .typeError else .bool false, [])
 
-/-- builtin_object.go:133 defineProperties / :152 create: convert and define one property at a
-    time; result (object after the properties processed so far, threw?) -/
+/-- builtin_object.go:152 create: convert and define one property at a
+    time (defineProperties converts everything first since the fix, see `convertAll`); result (object after the properties processed so far, threw?) -/
 def defineList (o : MObj) : List (Name × DescArg) → MObj × Bool
   | [] => (o, false)
   | (n, d) :: t =>
@@ -405,6 +411,25 @@ def defineList (o : MObj) : List (Name × DescArg) → MObj × Bool
       match defineOwn o n desc with
       | none => (o, true)
       | some o' => defineList o' t
+
+/-- builtin_object.go:133 defineProperties (after the fix): step 5, convert every descriptor first; none = TypeError -/
+def convertAll : List (Name × DescArg) → Option (List (Name × MProp))
+  | [] => some []
+  | (n, d) :: t =>
+    match toPropertyDescriptor d with
+    | none => none
+    | some desc =>
+      match convertAll t with
+      | none => none
+      | some r => some ((n, desc) :: r)
+
+/-- builtin_object.go:133 defineProperties, step 7: define in order; (object so far, threw?) -/
+def defineConverted (o : MObj) : List (Name × MProp) → MObj × Bool
+  | [] => (o, false)
+  | (n, desc) :: t =>
+    match defineOwn o n desc with
+    | none => (o, true)
+    | some o' => defineConverted o' t
 
 /-- builtin_object.go:241 seal: loop over a snapshot of propertyOrder; (object so far, threw?) -/
 def sealLoop (o : MObj) : List Name → MObj × Bool
@@ -455,8 +480,11 @@ def step (h : MHeap) : Op → StepRes
     match h[a]? with
     | none => (h, .bad, [])
     | some o =>
-      let (o', threw) := defineList o l
-      (h.set a o', if threw then .typeError else .ok, [])
+      match convertAll l with
+      | none => (h, .typeError, [])
+      | some ds =>
+        let (o', threw) := defineConverted o ds
+        (h.set a o', if threw then .typeError else .ok, [])
   | .create p l =>
     if (match p with | none => true | some pa => pa < h.length) then
       let (o', threw) := defineList ⟨p, true, []⟩ l
